@@ -146,10 +146,11 @@ def array_from_fn(eng, st, site, func, target, args, dty):
     if dty is None:
         return None
     t = eng.T(dty)
-    if t["k"] != "array" or t.get("len") is None or t["len"] > 16:
+    n = eng.array_len(site[0], t) if t["k"] == "array" else None
+    if n is None or n > 16:
         return None
     states = [(st, [])]
-    for i in range(t["len"]):
+    for i in range(n):
         nxt = []
         for s2, acc in states:
             for s3, r in eng.call_closure(s2, site, args[0], [VInt(eng.usize_ty(), Lin.const(i))]):
@@ -157,7 +158,7 @@ def array_from_fn(eng, st, site, func, target, args, dty):
         states = nxt
         if len(states) > 64:
             return None
-    return [(s2, VArr(t["len"], tuple(acc))) for s2, acc in states]
+    return [(s2, VArr(n, tuple(acc))) for s2, acc in states]
 
 
 @stub(r"^std::vec::Vec::<T, A>::resize$")
@@ -189,6 +190,11 @@ def iter_from_fn(eng, st, site, func, target, args, dty):
     return [(st, VIter("from_fn", None, 0, None, args[0]))]
 
 
+@stub(r"^std::iter::successors$|^core::iter::successors$")
+def iter_successors(eng, st, site, func, target, args, dty):
+    return [(st, VIter("successors", args[0], 0, None, args[1]))]
+
+
 @stub(r"^std::iter::Iterator::map_while$|std::iter::Iterator>::map_while$")
 def iter_map_while(eng, st, site, func, target, args, dty):
     import stubs3
@@ -201,3 +207,85 @@ def iter_map_while(eng, st, site, func, target, args, dty):
 @stub(r"^std::iter::Iterator::find$|std::iter::Iterator>::find$")
 def iter_find(eng, st, site, func, target, args, dty):
     return eng.call_local(st, site, "synth::find", [args[0], args[1]], tag="find")
+
+
+# ------------------------------------------------------------------ slices taken apart, vectors shortened
+
+@stub(r"^core::slice::<impl \[T\]>::split_(first|last)(_mut)?$")
+def slice_split_first(eng, st, site, func, target, args, dty):
+    """Some((&s[0], &s[1..])) / Some((&s[n-1], &s[..n-1])) for a non-empty slice, None for an empty one"""
+    from stubs2 import elem_ref
+    s = as_slice(eng, st, args[0])
+    if s is None:
+        return None
+    first = "split_first" in target["name"]
+    out = []
+    s0 = st.fork()
+    if eng.add(s0, c_eq(s.len, Lin.const(0))):
+        out.append((s0, mk_option(eng, dty, False)))
+    if eng.add(st, c_le(Lin.const(1), s.len)):
+        if first:
+            e = elem_ref(eng, st, s, Lin.const(0))
+            rest = VSlice(s.base, s.start + 1, s.len - 1, s.elem, s.is_str, s.mut)
+        else:
+            e = elem_ref(eng, st, s, s.len - 1)
+            rest = VSlice(s.base, s.start, s.len - 1, s.elem, s.is_str, s.mut)
+        out.append((st, mk_option(eng, dty, True, VAdt(None, Lin.const(0), {0: (e, rest)}))))
+    return out
+
+
+@stub(r"^core::slice::<impl \[T\]>::last(_mut)?$|^core::slice::<impl \[T\]>::first_mut$")
+def slice_last(eng, st, site, func, target, args, dty):
+    from stubs2 import elem_ref
+    s = as_slice(eng, st, args[0])
+    if s is None:
+        return None
+    out = []
+    s0 = st.fork()
+    if eng.add(s0, c_eq(s.len, Lin.const(0))):
+        out.append((s0, mk_option(eng, dty, False)))
+    if eng.add(st, c_le(Lin.const(1), s.len)):
+        idx = Lin.const(0) if "first" in target["name"] else s.len - 1
+        out.append((st, mk_option(eng, dty, True, elem_ref(eng, st, s, idx))))
+    return out
+
+
+@stub(r"^std::vec::Vec::<T, A>::(remove|swap_remove)$")
+def vec_remove(eng, st, site, func, target, args, dty):
+    """v.remove(i) / v.swap_remove(i): element i (panics unless i < len); the vector is one shorter.  What is left is
+    described only when the element taken is the last one; otherwise the content is a new, unknown arrangement (for
+    swap_remove a reordered one - recorded as an event, rules about ordered lists look for it)."""
+    frame, bb, t = site
+    cell, v = get_vec(eng, st, args[0])
+    i = _int(eng, st, args[1])
+    if v is None or i is None:
+        return None
+    if not pre(eng, st, site, "bounds", eng.callee_label(func), c_le(i.lin + 1, v.len),
+               "%s(%r) on a vector of %r elements" % (target["name"].rsplit("::", 1)[1], i.lin, v.len)):
+        return []
+    item = eng.unknown_elem(st, v, i.lin)
+    is_last = eng.ent(st, c_eq(i.lin + 1, v.len))
+    swap = target["name"].endswith("swap_remove")
+    st.emit(("vec_take", cell, "swap_remove" if swap else "remove", i.lin, is_last, site_info(site)))
+    if is_last:
+        st.cells[cell] = VVec(v.len - 1, None, None, v.name, v.elem_ty, v.marks)
+    else:
+        st.cells[cell] = VVec(v.len - 1, None, None, (v.name or "vec") + "'", v.elem_ty, None)
+    return [(st, item)]
+
+
+@stub(r"^std::vec::Vec::<T, A>::pop$")
+def vec_pop(eng, st, site, func, target, args, dty):
+    cell, v = get_vec(eng, st, args[0])
+    if v is None:
+        return None
+    out = []
+    s0 = st.fork()
+    if eng.add(s0, c_eq(v.len, Lin.const(0))):
+        out.append((s0, mk_option(eng, dty, False)))
+    if eng.add(st, c_le(Lin.const(1), v.len)):
+        item = eng.unknown_elem(st, v, v.len - 1)
+        st.emit(("vec_take", cell, "pop", v.len - 1, True, site_info(site)))
+        st.cells[cell] = VVec(v.len - 1, None, None, v.name, v.elem_ty, v.marks)
+        out.append((st, mk_option(eng, dty, True, item)))
+    return out
